@@ -9,6 +9,10 @@
   inner command is `exec`, whose redirections persist past the inner command (but whatever they did
   to a target of the outer list is undone with the outer list).
 
+  In an interactive shell an inner command that ends in `Divert::Interrupt` (`interrupts`) skips the rest
+  of the outer body; the tables are the same (the outer guard is dropped, undoing its list), only the
+  second look at the table inside the body does not happen.
+
   Import-free (apart from the model itself) and executable: the driver runs scripts of `Cmd`s.
 -/
 import YashModel.Redir.Spec
@@ -26,6 +30,21 @@ structure CmdTrace where
   /-- nested command whose own (outer) redirections all succeeded: the world and table the inner
       command found, and the inner command's trace -/
   inner : Option (World × FdTable × Trace) := none
+  /-- the inner command ended in an interrupt the interactive shell recovers from at the top level -/
+  innerInterrupted : Bool := false
+
+/-- does the command end in a `Divert::Interrupt` that an interactive shell recovers from at the top
+    level only — a redirection error on a special built-in, a failing expansion in an operand, a usage
+    error of `exec`, a `.` script that cannot be opened?  Inside a compound command or function body the
+    rest of the body is then skipped (the outer guard is dropped on the way out, undoing its list). -/
+def interrupts (w : World) (t : FdTable) (k : Kind) (rs : List Redir) : Bool :=
+  w.interactive && k != .empty && k != .assign && k != .guardUndo && k != .guardKeep &&
+  (match (performRedirs worldOracle w t rs).err with
+   | some e => k.isSpecial || e == .expansion
+   | none => k == .execBadOption ||
+       ((k == .dot || k == .dotMissing) &&
+         (openScript worldOracle (performRedirs worldOracle w t rs).w (performRedirs worldOracle w t rs).t
+           (if k == .dot then 10 else pathEnotdir)).2.2.isNone))
 
 /-- `FullCompoundCommand::execute` (or `execute_function`) around a body that is itself a command with
     redirections.  A failing outer list is what it is for `{ }`.  Otherwise the inner command runs on
@@ -44,7 +63,8 @@ def runNested (w : World) (t : FdTable) (outer : List Redir) (ki : Kind) (inner 
             exited := (runCommand (performRedirs worldOracle w t outer).w (performRedirs worldOracle w t outer).t ki inner prev).exited,
             saved := (performRedirs worldOracle w t outer).saved },
     inner := some ((performRedirs worldOracle w t outer).w, (performRedirs worldOracle w t outer).t,
-                   runCommand (performRedirs worldOracle w t outer).w (performRedirs worldOracle w t outer).t ki inner prev) }
+                   runCommand (performRedirs worldOracle w t outer).w (performRedirs worldOracle w t outer).t ki inner prev),
+    innerInterrupted := interrupts (performRedirs worldOracle w t outer).w (performRedirs worldOracle w t outer).t ki inner }
 
 def runCmd (w : World) (t : FdTable) (prev : Nat) : Cmd → CmdTrace
   | .plain k rs => { tr := runCommand w t k rs prev }
